@@ -14,6 +14,10 @@ SocketConnection wraps the real one.  A controller decides per INVOKE exchange w
   alter-seq d        processed; the reply's sequence field is changed
   replay-stale       processed; an earlier reply recorded on this proxy is delivered instead of the real one
   duplicate          the reply is delivered, and a second copy of it stays in the stream in front of the next reply
+  reset-while-decoding  (only when the harness armed it: the request carries an argument whose custom deserialiser reports
+                     "the server is decoding this request now" and waits) the request is delivered completely, the
+                     connection is reset while the server still decodes it, then the server goes on: the request WAS
+                     delivered, its method runs, no reply can arrive
 
 After a reset (drop-request, cut-reply, reset-after) the wrapped connection is dead: every later send/recv on it raises
 ConnectionClosedError.  No wall-clock timeout is ever awaited.
@@ -30,6 +34,10 @@ class Controller(object):
         self.recorded = []        # complete earlier replies (bytes) seen on this proxy
         self.default = ("deliver",)
         self.connections = 0
+        self.gate_armed = False   # the next request carries the "I am being decoded" argument
+        self.decode_entered = None
+        self.decode_go = None
+        self.server_sees_reset = None   # callable: wait until the server side socket knows its peer is gone (stimulus only)
 
     def next_action(self):
         if self.script:
@@ -104,7 +112,9 @@ class FaultConn(object):
             action = (kind, {"cut-reply": 13, "alter-seq": 1, "replay-stale": 0}[kind])
         if kind == "replay-stale" and not self.c.recorded:
             action, kind = ("deliver",), "deliver"          # nothing to replay yet: the exchange is untouched
-        if oneway and kind != "drop-request":
+        if kind == "reset-while-decoding" and not self.c.gate_armed:
+            action, kind = ("reset-after",), "reset-after"
+        if oneway and kind not in ("drop-request", "reset-while-decoding"):
             action, kind = ("deliver",), "deliver"          # a oneway request has no reply that could be faulted
         if kind == "drop-request":
             self.dead = True
@@ -115,6 +125,27 @@ class FaultConn(object):
                 pass
             raise self._closed_error("connection reset before the request left")
         self.real.send(data)
+        if kind == "reset-while-decoding":
+            import socket
+            import struct
+            self.c.gate_armed = False
+            entered = self.c.decode_entered.wait(20)
+            try:
+                self.real.sock.setsockopt(socket.SOL_SOCKET, socket.SO_LINGER, struct.pack("ii", 1, 0))
+            except OSError:
+                pass
+            try:
+                self.real.close()
+            except Exception:
+                pass
+            self.dead = True
+            if entered and self.c.server_sees_reset is not None:
+                self.c.server_sees_reset()
+            self.c.decode_go.set()
+            self.c.history.append((action, oneway, True))
+            if not oneway:
+                self.pending_error = self._closed_error("connection reset while the server was decoding the request")
+            return
         if oneway or kind == "deliver":
             self.c.history.append((action, oneway, True))
             return
